@@ -120,15 +120,37 @@ class DictRun:
         return fs
 
     def run_case(self, case):
+        if case.state in ("cold", "coldgen"):
+            return self.run_cold(case)
+        return self.run_case1(case)
+
+    def run_cold(self, case):
+        """two processes: the first builds the dictionary and writes its image to a file, the second builds nothing and answers from the loaded image"""
+        imgp = os.path.join(self.workdir, "img_%d" % self.runner.next_id())
+        try:
+            first = Case(case.kind, case.p, case.iname, case.S, "own", case.opt, ("meta",), case.big, case.memalloc, case.seed, case.flavor, case.env, cpu=case.cpu, extra=tuple(case.extra) + ("--img-out", imgp))
+            c1, res1, fs1 = self.run_case1(first)
+            if res1["status"] != "ok" or not os.path.exists(imgp):
+                for f in fs1:
+                    f["state"] = case.state
+                return case, res1, fs1
+            return self.run_case1(case, ("--img-in", imgp))
+        finally:
+            try:
+                os.unlink(imgp)
+            except OSError:
+                pass
+
+    def run_case1(self, case, more=()):
         skip = set()
         allf = []
         final = None
         rounds = 0
         ctx = None
         while True:
-            res = self.runner.run(self.argv(case, skip), env_extra=case.env, cpu_s=self.cpu_limit(case), wall_s=900)
+            res = self.runner.run(self.argv(case, skip) + list(more), env_extra=case.env, cpu_s=self.cpu_limit(case), wall_s=900)
             if res["status"] == "wall":   # re-run once before reporting (wall clock never decides)
-                res = self.runner.run(self.argv(case, skip), env_extra=case.env, cpu_s=self.cpu_limit(case), wall_s=900)
+                res = self.runner.run(self.argv(case, skip) + list(more), env_extra=case.env, cpu_s=self.cpu_limit(case), wall_s=900)
             final = res
             fs = self.extract_findings(case, res)
             allf.extend(fs)
